@@ -6,6 +6,7 @@ import Driver.C06
 import Driver.C07
 import Driver.C09
 import Driver.C11
+import Driver.C12
 import Driver.C13
 import Driver.C17
 open Lean Drv
@@ -20,6 +21,7 @@ def dispatch (j : Json) : Except String Json := do
   | "C07" => Drv.C07.handle j
   | "C09" => Drv.C09.handle j
   | "C11" => Drv.C11.handle j
+  | "C12" => Drv.C12.handle j
   | "C13" => Drv.C13.handle j
   | "C17" => Drv.C17.handle j
   | _ => throw s!"bad-property {p}"
